@@ -1,7 +1,8 @@
 (* C03 — validation always terminates without panic, even on cyclic fragments. *)
 From GT Require Import Visitor Validate.
 From GTS Require Import Annot WfSchema SpecValid.
-From GTP Require Import C03_proofs.
+From GT Require Import Merge.
+From GTP Require Import C03_proofs C03_merge_fuel_proofs C03_merge_fuel_cex C03_merge_fuel_all.
 
 (* Every fuel-bounded walk of the model is given enough fuel: no rule other than the field-merging
    rule ever runs out of fuel, for ANY schema and document (cyclic, unknown names, invalid ...). *)
@@ -17,13 +18,40 @@ Theorem C03_terminates : forall s d plan, wf_schema s = true ->
 Proof. exact validate_terminates. Qed.
 Print Assumptions C03_terminates.
 
-(* ... and with it whenever the merge rule itself does not exhaust its (generous) fuel; that
-   [merge_fuel d] always suffices is NOT proved (see DESIGN.md: C03 partial) *)
-Theorem C03_terminates_partial : forall s d plan, wf_schema s = true ->
-  r_oof (snd (run_rule R_OverlappingFieldsCanBeMerged s d ctx0)) = false ->
-  exists es, validate s d plan = Ok es.
-Proof. exact validate_terminates_partial. Qed.
-Print Assumptions C03_terminates_partial.
+(* the field-merging rule never runs out of fuel either, for ANY schema, document (cyclic, unknown
+   or duplicate fragments ...) and start context: the model's fuel dominates merge_fuel' d =
+   (ng+5)*2*nf^2 + 2*ng^2 + ng + 4, which bounds the nesting depth of the memoised search by a
+   measure on (call, memo state).  (The first constant of the model, linear in nf, was too small:
+   C03_merge_depth_example; found while proving this.) *)
+Theorem C03_merge_no_fuel_exhaustion : forall s d c,
+  r_oof (snd (run_rule R_OverlappingFieldsCanBeMerged s d c)) = false.
+Proof. exact merge_no_fuel_exhaustion. Qed.
+Print Assumptions C03_merge_no_fuel_exhaustion.
+
+(* hence: validate returns normally on every well-formed schema, every document and EVERY plan *)
+Theorem C03_terminates_all : forall s d plan, wf_schema s = true -> exists es, validate s d plan = Ok es.
+Proof. exact validate_terminates_all. Qed.
+Print Assumptions C03_terminates_all.
+
+(* the search of an arbitrary call from an arbitrary (symmetric) memo state needs at most the
+   measure mu as nesting depth; more fuel never changes a result *)
+Theorem C03_mrun_never_out_of_fuel : forall s d fuel c st,
+  cwf d c -> psym (ms_compared st) -> mu d c st <= fuel -> mrun fuel s d c st <> None.
+Proof. exact mrun_never_out_of_fuel. Qed.
+Print Assumptions C03_mrun_never_out_of_fuel.
+
+Theorem C03_mrun_more_fuel : forall s d fuel fuel' c st r,
+  fuel <= fuel' -> mrun fuel s d c st = Some r -> mrun fuel' s d c st = Some r.
+Proof. exact mrun_more_fuel. Qed.
+Print Assumptions C03_mrun_more_fuel.
+
+(* the depth really is quadratic in the number of fields: one cyclic fragment with two cycles of
+   coprime lengths 13 and 12 (25 fields) needs depth exactly 776, more than the first constant 772 *)
+Theorem C03_merge_depth_example :
+  mrun 775 Cex.sch Cex.cex_doc (CWithinSelectionSet (type_by_name Cex.sch "T") Cex.cex_sels) (mkMS [] [] []) = None /\
+  mrun 776 Cex.sch Cex.cex_doc (CWithinSelectionSet (type_by_name Cex.sch "T") Cex.cex_sels) (mkMS [] [] []) <> None.
+Proof. exact Cex.cex_depth. Qed.
+Print Assumptions C03_merge_depth_example.
 
 (* the only panic: a schema without a query root object, met by a query operation *)
 Theorem C03_panic_exact : forall s d plan,
